@@ -21,6 +21,12 @@ Definition expected (nm : string) : option (list expr) :=
   | ["mctor"; "scalars"; c; r; ty] => match digit_of c, digit_of r with Some C, Some R => Some (vars F32 0 (C * R)) | _, _ => None end
   | ["mctor"; "iscalars"; c; r; ty] => match digit_of c, digit_of r with Some C, Some R => Some (map (Cv F32 I32) (vars I32 0 (C * R))) | _, _ => None end
   | ["mctor"; "cols"; c; r; ty] => match digit_of c, digit_of r with Some C, Some R => Some (flat_map (fun a => vars F32 a R) (zseq C)) | _, _ => None end
+  (* shape conversion: the common block is copied, the rest is the identity matrix;  element (column ci, row ri) of the source has index ci * R2 + ri *)
+  | ["mconv"; c; r; c2; r2; ty] => match digit_of c, digit_of r, digit_of c2, digit_of r2 with
+      | Some C, Some R, Some C2, Some R2 => Some (flat_map (fun ci => map (fun ri => if (ci <? C2) && (ri <? R2) then V F32 0 (ci * R2 + ri) else if ci =? ri then Cf F32 false 1 0 else Cf F32 false 0 0) (zseq R)) (zseq C))
+      | _, _, _, _ => None end
+  | ["mdiag"; c; r; ty] => match digit_of c, digit_of r with Some C, Some R => Some (flat_map (fun ci => map (fun ri => if ci =? ri then V F32 0 0 else Cf F32 false 0 0) (zseq R)) (zseq C)) | _, _ => None end
+  | ["mconvk"; c; r; k] => match digit_of c, digit_of r with Some C, Some R => Some (map (Cv F32 (kind_of_name k)) (vars (kind_of_name k) 0 (C * R))) | _, _ => None end
   | ["qctor"; "wxyz"; ty] | ["qctor"; "factory"; "wxyz"; ty] => Some [V F32 0 1; V F32 0 2; V F32 0 3; V F32 0 0]
   | ["qctor"; "sv"; ty] => Some [V F32 1 0; V F32 1 1; V F32 1 2; V F32 0 0]
   | ["qctor"; "conv"; ty] => Some (map (Cv F32 F64) (vars F64 0 4))
@@ -41,6 +47,14 @@ Definition required_swizzles : list string :=
   ++ flat_map (fun L => map (fun w => "swz_free_" ++ lstr L ++ "_" ++ w) (xyzw_words L)) [1; 2; 3; 4]%nat.
 Lemma swizzle_catalogue_complete : forallb has required_swizzles = true.
 Proof. vm_compute. reflexivity. Qed.
+(* the 81 matrix shape conversions, 9 diagonal constructors, 18 element-type conversions *)
+Definition shapes : list (nat * nat) := flat_map (fun c => map (fun r => (c, r)) [2; 3; 4]%nat) [2; 3; 4]%nat.
+Definition required_matrix : list string :=
+  flat_map (fun d => List.app (flat_map (fun s => ["mconv_" ++ lstr (fst d) ++ "_" ++ lstr (snd d) ++ "_" ++ lstr (fst s) ++ "_" ++ lstr (snd s) ++ "_f32"]) shapes)
+                     ["mdiag_" ++ lstr (fst d) ++ "_" ++ lstr (snd d) ++ "_f32"; "mconvk_" ++ lstr (fst d) ++ "_" ++ lstr (snd d) ++ "_f64"; "mconvk_" ++ lstr (fst d) ++ "_" ++ lstr (snd d) ++ "_i32";
+                         "mctor_scalars_" ++ lstr (fst d) ++ "_" ++ lstr (snd d) ++ "_f32"; "mctor_cols_" ++ lstr (fst d) ++ "_" ++ lstr (snd d) ++ "_f32"]) shapes.
+Lemma matrix_catalogue_complete : forallb has required_matrix = true /\ List.length required_matrix = 126%nat.
+Proof. vm_compute. split; reflexivity. Qed.
 Definition count_prefix (p : string) : Z := Z.of_nat (List.length (filter (fun e => String.prefix p (fst e)) cat)).
 Lemma catalogue_sizes : (3300 <=? count_prefix "swz_") && (100 <=? count_prefix "ctor_") && (160 <=? count_prefix "swzw_") = true.
 Proof. vm_compute. reflexivity. Qed.
